@@ -29,12 +29,12 @@ JoinSp(ss) == FoldLeft(LAMBDA a, i : IF a = "" THEN ss[i] ELSE a \o " " \o ss[i]
 (* a, b written next to each other: without white space when that lexes back to <<a, b>> *)
 Adj(a, b) == IF Lex(a \o b) = <<a, b>> THEN a \o b ELSE a \o " " \o b
 
-(* ---- F1: one function-like macro f; every body of <= 3 items; 30 invocation shapes *)
+(* ---- F1: one function-like macro f; every body of <= 3 items; 32 invocation shapes *)
 F1Items == <<"x", "y", "#x", "#y", "##", "f", "1", "+", "__VA_ARGS__", "__VA_OPT__(,)", ", ## __VA_ARGS__">>
 F1Invs == <<"f(1)", "f()", "f(1,2)", "f(,)", "f(1,)", "f(,2)", "f(1,2,3)", "f(,,)", "f((1,2))", "f((1),2)",
             "f((,),())", "f", "f 1", "f(f)(1)", "f(f(1))", "f(f(1),f(2))", "f(f)", "f(\n1\n)", "f\n(1,\n2)", "f(1 2)",
             "f( 1 + 2 , + )", "f(a b,c  d)", "f(1+2)", "f(\"s\", 'c')", "f(\"a\\\"b\\\\n\")", "f(1)(2)", "f(f(1,2),3)",
-            "f((f)(1))", "1 f(2) 3 f(4)", "f(f(f(1)))">>
+            "f((f)(1))", "1 f(2) 3 f(4)", "f(f(f(1)))", "f(,f(2))", "f(,f)(3)">>
 NI1 == Len(F1Items)
 F1Body(k) ==       \* k in 0 .. 1 + NI1 + NI1^2 + NI1^3 - 1
   IF k = 0 THEN ""
@@ -70,6 +70,24 @@ F2Case(i) == LET j == i - 1
              IN Case("F2", i, <<Obj("A", F2Body(a)), Obj("B", F2Body(b)), Fun("f", <<"x">>, F2FBodies[fb + 1])>>,
                      F2Invs[inv + 1], "")
 NF2 == NB2 * NB2 * Len(F2FBodies) * Len(F2Invs)
+
+(* ---- F7: hide-set algebra: complete function-like invocations inside nested object-like expansions,
+   whose bodies name the enclosing macros (hide sets with two and three names meet at the intersection) *)
+F7Items == <<"A", "B", "f(A)", "f(B)", "f(1)", "1">>
+NI7 == Len(F7Items)
+F7Body(k) == IF k = 0 THEN "" ELSE IF k <= NI7 THEN F7Items[k]
+             ELSE LET j == k - NI7 - 1 IN JoinSp(<<F7Items[(j \div NI7) + 1], F7Items[(j % NI7) + 1]>>)
+NB7 == 1 + NI7 + NI7 * NI7
+F7FBodies == <<"x", "A", "x B", "A B x", "f(x)">>
+F7Invs == <<"A", "B", "f(A) B", "f(f(A))">>
+F7Case(i) == LET j == i - 1
+                 inv == j % Len(F7Invs)
+                 fb == (j \div Len(F7Invs)) % Len(F7FBodies)
+                 b == (j \div (Len(F7Invs) * Len(F7FBodies))) % NB7
+                 a == j \div (Len(F7Invs) * Len(F7FBodies) * NB7)
+             IN Case("F7", i, <<Obj("A", F7Body(a)), Obj("B", F7Body(b)), Fun("f", <<"x">>, F7FBodies[fb + 1])>>,
+                     F7Invs[inv + 1], "")
+NF7 == NB7 * NB7 * Len(F7FBodies) * Len(F7Invs)
 
 (* ---- F3: arguments that are themselves invocations (complete, or completed late), to depth 2 *)
 F3Atoms == <<"1", "f", "E", "g", "LP 1">>
@@ -212,7 +230,7 @@ PTCase(i) ==
 NPT == NT * NT * NT * 2
 
 NCasesOf(f) == CASE f = "F1" -> NF1 [] f = "F2" -> NF2 [] f = "F3" -> NF3 [] f = "F4" -> NF4
-                 [] f = "F5" -> NF5 [] f = "F6" -> NF6 [] f = "P" -> NP [] f = "PT" -> NPT
+                 [] f = "F5" -> NF5 [] f = "F6" -> NF6 [] f = "F7" -> NF7 [] f = "P" -> NP [] f = "PT" -> NPT
 CaseAt(f, i) == CASE f = "F1" -> F1Case(i) [] f = "F2" -> F2Case(i) [] f = "F3" -> F3Case(i) [] f = "F4" -> F4Case(i)
-                  [] f = "F5" -> F5Case(i) [] f = "F6" -> F6Case(i) [] f = "P" -> PCase(i) [] f = "PT" -> PTCase(i)
+                  [] f = "F5" -> F5Case(i) [] f = "F6" -> F6Case(i) [] f = "F7" -> F7Case(i) [] f = "P" -> PCase(i) [] f = "PT" -> PTCase(i)
 =============================================================================
